@@ -515,6 +515,21 @@ rows[0]
 rows
 [r for r in rows if r.when == "2025-01-02"]
 next((r for r in orders), rows[0])
+100 * 1.08 > amount
+-5 < amount
+amount > 2 ** 3 or amount > 7 // 2
+"%s" % "".__class__.__mro__
+"%s" % "".__class__.__base__.__subclasses__()
+"a" + "".__class__.__name__
+not "".__class__
+-(1).real
+("x" * 2).__class__
+"%s" % (1).__class__.__mro__[-1].__subclasses__()
+"%s" % "".join
+"%d" % "abc".__len__()
+"%s" % [].__class__
+~(1).__class__.__hash__(1)
+"%(a)s" % {"a": 1}.__class__
 '''.strip().splitlines()
 
 VIEW_PAYLOADS = r'''
@@ -934,10 +949,67 @@ def run(rec, shard, nshards, t):
         for s in ['description.__class__', '(r for r in rows).gi_frame', 'f"{amount}"', '"{0.__class__}".format(amount)']:
             rec.sample(s)
         generator_tag_probe(rec, ep)
+        loader_rows_probe(rec, ep)
         if t != 'quick':
             core.repo_tests_with_monitors(rec, 'C03')
     for k, v in nodes.items():
         rec.count('node_evaluated:' + k, v)
+
+
+LOADER_EXPRS = ['"%s" % rows[0]', 'trim(rows[0])', 'lowercase(orders[0])', '"%s" % [r for r in rows]', '"%(description)s/%(wrap)s" % rows[0]', 'rows[0]["gift_note"]',
+                '[r["nope"] for r in rows]', '"%s" % next(r for r in orders)', 'rows[0].description + "/" + orders[0].description', 'len(rows[0])', '"nope" in rows[0]',
+                '[r.description for r in rows if r.qty == "1"]', 'rows[1]["description"]', 'sum(r.amount for r in rows)', '"%s" % rows[0].date', 'orders[0].nosuch']
+
+
+def loader_rows_probe(rec, ep):
+    """Supplemental rows as the REAL loader builds them (settings.yaml -> load_config -> load_supplemental_sources) behave as the plain data they
+    hold: every expression over them gives what it gives over plain dict copies of the same rows, shows no interpreter object, and leaves them unchanged."""
+    from tally.config_loader import load_config, load_supplemental_sources
+    from tally.merchant_engine import parse_merchants
+    tmpd = tempfile.mkdtemp(prefix='vt-c03-l-')
+    try:
+        os.makedirs(os.path.join(tmpd, 'config'))
+        os.makedirs(os.path.join(tmpd, 'data'))
+        with open(os.path.join(tmpd, 'data', 'rows.csv'), 'w') as f:
+            f.write('Date,Amount,Item,Qty\n2025-01-02,12.00,NETFLIX,1\n2025-01-03,5,star,0\n2025-01-04,7.5,short\n')          # the last line lacks a column
+        with open(os.path.join(tmpd, 'data', 'orders.csv'), 'w') as f:
+            f.write('Date,Amount,Item,Qty\n2025-01-09,100.0,COSTCO,2\n')
+        with open(os.path.join(tmpd, 'data', 'card.csv'), 'w') as f:
+            f.write('Date,Description,Amount\n2025-01-15,NETFLIX.COM,12.50\n')
+        with open(os.path.join(tmpd, 'config', 'settings.yaml'), 'w') as f:
+            f.write('year: 2025\ndata_sources:\n  - name: Card\n    file: data/card.csv\n    format: "{date:%Y-%m-%d},{description},{amount}"\n'
+                    '  - name: Rows\n    file: data/rows.csv\n    supplemental: true\n    format: "{date:%Y-%m-%d},{amount},{description},{qty}"\n'
+                    '  - name: Orders\n    file: data/orders.csv\n    supplemental: true\n    format: "{date:%Y-%m-%d},{amount},{description},{qty}"\n')
+        cfgd = os.path.join(tmpd, 'config')
+        loaded = load_supplemental_sources(load_config(cfgd), cfgd)
+    except Exception as e:
+        rec.unsure('loader rows probe could not load its budget: %s: %s' % (type(e).__name__, e))
+        return
+    finally:
+        shutil.rmtree(tmpd, ignore_errors=True)
+    if set(loaded) != {'rows', 'orders'}:
+        rec.unsure('loader rows probe: sources loaded: %s' % sorted(loaded))
+        return
+    plain = {k: [dict(r) for r in v] for k, v in loaded.items()}
+    for e in LOADER_EXPRS:
+        for slot in ('tag', 'field'):
+            text = '[P]\nmatch: true\ncategory: C\n' + ('tags: t1, {%s}\n' % e if slot == 'tag' else 'field: out = %s\n' % e)
+            outs = []
+            for rows in (copy.deepcopy(loaded), copy.deepcopy(plain)):
+                snap = repr({k: [sorted(dict(r).items(), key=repr) for r in v] for k, v in rows.items()})
+
+                def go(rows=rows):
+                    res = parse_merchants(text).match(copy.deepcopy(TXN), data_sources=rows)
+                    return {'tags': sorted(res.tags), 'fields': res.extra_fields}
+                o = plain_outcome(rec, 'rules file ' + slot, e, go, hay(e) + text, ep, final_generator_ok=False)
+                outs.append(repr(o))
+                rec.count('loader_row_expressions')
+                if repr({k: [sorted(dict(r).items(), key=repr) for r in v] for k, v in rows.items()}) != snap:
+                    rec.violation('reading-supplemental-rows-changes-them:' + slot, f'{e!r} over the rows built by load_supplemental_sources changed them: {snap[:200]} -> '
+                                  f'{repr(rows)[:200]}', {'kind': 'loader-rows'})
+            if outs[0] != outs[1]:
+                rec.violation('loader-built-rows-differ-from-plain-data:' + slot, f'{e!r}: over the loader\'s rows {outs[0][:200]}, over plain dict copies of them {outs[1][:200]}',
+                              {'kind': 'loader-rows'})
 
 
 def generator_tag_probe(rec, ep):
@@ -963,6 +1035,9 @@ def replay(rec, case):
     mon.call_monitor_arm(ep, (ep.TransactionEvaluator, ep.ExpressionEvaluator, ep.TransactionContext, ep.ExpressionContext, ast.AST))
     if case.get('kind') == 'genprobe':
         generator_tag_probe(rec, ep)
+        return
+    if case.get('kind') == 'loader-rows':
+        loader_rows_probe(rec, ep)
         return
     rnd = core.rng_for('C03', 'replay')
     s = case['s']
